@@ -39,7 +39,7 @@ PROPS = {
         "title": "The application proxy is transparent",
         "design_ref": "DESIGN.md §3 C20",
         "technique": "Lean 4 proof about the retry loop (retry counts regenerated) + differential correspondence of attempts/outcome under injected faults + byte-exact transport oracle on both real socket proxies and the in-process proxy",
-        "level_text": "PARTIAL proof (Lean 4): the retry loop of the socket proxy clients reports an error iff every attempt made failed, a success carries the reply of the first successful attempt, at most `retries` attempts are made, and with the shipped (regenerated) retry counts a success is never empty. Not modelled: net/rpc, jsonrpc, TCP, timing. Decided by the harness: type-directed blocks, commit responses, snapshots and transactions through both real socket proxies (loopback TCP) and the in-process proxy with one recording handler, compared byte for byte, submission order preserved; a fake application endpoint refusing / dropping / garbling connections at each call position: outcome and number of attempts compared with the model, never a zero-valued success.",
+        "level_text": "PARTIAL proof (Lean 4): the retry loop of the socket proxy clients reports an error iff every attempt made failed, a success carries the reply of the first successful attempt, at most `retries` attempts are made, and with the shipped (regenerated) retry counts a success is never empty. Not modelled: net/rpc, jsonrpc, TCP, timing. Decided by the harness: type-directed blocks, commit responses, snapshots and transactions through both real socket proxies (loopback TCP) and the in-process proxy with one recording handler, compared byte for byte, submission order preserved; a fake application endpoint refusing / dropping / garbling connections at each call position: outcome and number of attempts compared with the model, never a zero-valued success; an application whose commit handler fails 0-4 times for a block behind the real socket proxy: outcome and number of handler invocations compared with the model, a success must be an answer the application produced.",
         "level_note": "Trusted: Lean kernel; extractor (retries: 3 in both clients); net/rpc + jsonrpc + encoding/json as they are.",
         "trusted_base": ["net/rpc/jsonrpc and TCP are exercised by the harness, not modelled"],
         "assumptions": ["timing: a timed-out CommitBlock may be delivered to a slow application more than once by the retry (D16): not exercised deterministically, recorded in DESIGN.md"],
@@ -48,7 +48,7 @@ PROPS = {
         "title": "Encoding identity",
         "design_ref": "DESIGN.md §3 C15",
         "technique": "Lean 4 proof that the compact wire form is lossless under the admission invariant (model of SetWireInfo/ToWire/ReadWireInfo) + field tables of MarshalDB / UnmarshalDB / ToWire regenerated from event.go and checked symmetric and complete + differential correspondence + real-encoder round-trip oracle (wire, database, JSON, map order)",
-        "level_text": "PARTIAL proof (Lean 4): for two nodes whose histories satisfy the admission invariant (C07) an event converted to its wire form on one and read back on the other, which holds its parents, resolves to exactly the sender's parent hashes and carries every other body field verbatim (wire_roundtrip), hence same body, hash and signature validity. The model of the conversion is compared with Event.ToWire / ReadWireInfo on real hashgraphs. Not modelled: encoding/json, ugorji codec, base64, SHA-256; the JSON transport of blocks, frames and events (nil vs empty slices, binary transactions), the database form after eviction and reopen, and the independence of the frame hash from map fill order are decided by the oracle on the real encoders, including events served by a node that adopted them through a fast-forward frame.",
+        "level_text": "PARTIAL proof (Lean 4): for two nodes whose histories satisfy the admission invariant (C07) an event converted to its wire form on one and read back on the other, which holds its parents, resolves to exactly the sender's parent hashes and carries every other body field verbatim (wire_roundtrip), hence same body, hash and signature validity. Byte level (model Babble.ByteCodec, compared value for value with common.EncodeToString / DecodeFromString and keys.EncodeSignature / DecodeSignature): decoding the canonical hexadecimal spelling of any byte string and the canonical base-36 spelling of any signature (r, s) gives the value back, and the canonical spellings are injective (hex_roundtrip, hex_spelling_injective, signature_roundtrip, signature_spelling_injective). The model of the conversion is compared with Event.ToWire / ReadWireInfo on real hashgraphs. Not modelled: encoding/json, ugorji codec, base64, SHA-256; the JSON transport of blocks, frames and events (nil vs empty slices, binary transactions), the database form after eviction and reopen, and the independence of the frame hash from map fill order are decided by the oracle on the real encoders, including events served by a node that adopted them through a fast-forward frame.",
         "level_note": "Trusted: Lean kernel; wire model tied by correspondence; FNV-32 participant ids injective; hashes determine (creator, index).",
         "trusted_base": ["encoding/json, ugorji codec (canonical), base64, SHA-256 are used as they are by the oracle", "participant ids (FNV-32) injective on the participants of a run"],
         "assumptions": ["event id = hash of the body determines creator and index (hypothesis hhash)"],
@@ -93,7 +93,7 @@ PROPS = {
         "title": "Fast-sync acceptance",
         "design_ref": "DESIGN.md §3 C12",
         "technique": "Lean 4 proof of the acceptance decision (model assembled from check order, threshold and operator regenerated from the Go AST) + differential correspondence on tampered real responses + independent-recomputation oracle + node-level restore check",
-        "level_text": "Proof (Lean 4): the model of core.checkFastForward accepts iff the response is structurally sound, both hashes match, strictly more than TrustCount DISTINCT members of the frame's peer set have a verifying signature and one of them is a validator the node already knows (ff_accept_iff); the same signer under any number of re-encoded keys counts once (valid_signers_distinct), every counted signer has a verifying entry; any tampering that breaks a hashed relation is refused (ff_tamper_refused); nothing precedes the checks in core.fastForward and the application is restored only after them in Node.fastForward (ff_refused_is_noop, order regenerated from the source). The model is tied to the code by applying 29 single-field tamperings of real responses to fresh cores and comparing accept/refuse; refusals are checked to leave a digest of the node unchanged; the real Node.fastForward is run against a hostile serving peer.",
+        "level_text": "Proof (Lean 4): the model of core.checkFastForward accepts iff the response is structurally sound, both hashes match, strictly more than TrustCount DISTINCT members of the frame's peer set have a verifying signature and one of them is a validator the node already knows (ff_accept_iff); the same signer under any number of re-encoded keys counts once (valid_signers_distinct), every counted signer has a verifying entry; on the byte-level model of the decoders (Babble.ByteCodec, compared value for value with the Go functions) the case of the hexadecimal digits and the first two bytes of a key string never change what it decodes to, and a signature string can be re-spelled (upper case, leading zeros) without changing its value (key_spelling_case_irrelevant, key_spelling_prefix_irrelevant, signature_respelled): map keys and signature strings are not identities; any tampering that breaks a hashed relation is refused (ff_tamper_refused); nothing precedes the checks in core.fastForward and the application is restored only after them in Node.fastForward (ff_refused_is_noop, order regenerated from the source). The model is tied to the code by applying 29 single-field tamperings of real responses to fresh cores and comparing accept/refuse; refusals are checked to leave a digest of the node unchanged; the real Node.fastForward is run against a hostile serving peer.",
         "level_note": "Trusted: Lean kernel; extractor (check order, CheckBlock operator, TrustCount formula); hash equalities and signature validity are input bits from the real code (SHA-256 injectivity, ECDSA unforgeability).",
         "trusted_base": ["hash(frame)/hash(peer set) equality ⇔ content equality (SHA-256), signatures cover the block body (ECDSA)", "fast-forward model Babble.FF tied to core.fastForward by correspondence on tampered responses"],
         "assumptions": ["frame.Peers is duplicate free (it hashes to the block's peer-set hash, which was produced from a set built by WithNewPeer/WithRemovedPeer: C19)"],
@@ -111,7 +111,7 @@ PROPS = {
         "title": "No network input can crash a node or alter its committed history",
         "design_ref": "DESIGN.md §3 C08",
         "technique": "Lean 4 totality proofs over a model of the validation layer with Go's partial operations explicit + differential correspondence of outcome classes + hostile-message harness on real Node objects",
-        "level_text": "PARTIAL proof (Lean 4): in the model of the validation layer (hex / signature / public-key decoding, signature verification of internal transactions, events and blocks, sync-limit arithmetic; slicing and nil dereference explicit as a panic outcome) no input whatsoever reaches a panic (decode_total, signature_total, itx_verify_total, verify_total, sync_limit_total). The model is tied to the code by comparing the outcome class ok|err|panic on a hostile value grammar. Not modelled (runtime): encoding/json, transport framing, goroutines, locks; covered by the harness: hostile Sync/EagerSync/Join/FastForward requests through Node.processRPC, hostile sync and fast-forward responses through core, each followed by a valid exchange and a comparison of delivered blocks.",
+        "level_text": "PARTIAL proof (Lean 4): in the model of the validation layer (hex / signature / public-key decoding, signature verification of internal transactions, events and blocks, sync-limit arithmetic; slicing and nil dereference explicit as a panic outcome) no input whatsoever reaches a panic (decode_total, signature_total, itx_verify_total, verify_total, sync_limit_total); the outcome classes of the two string decoders are proved to be exactly the successes and failures of the byte-level value model Babble.ByteCodec (hex_outcome_is_value_model, signature_outcome_is_value_model), which is compared with the Go decoders value for value. The model is tied to the code by comparing the outcome class ok|err|panic on a hostile value grammar. Not modelled (runtime): encoding/json, transport framing, goroutines, locks; covered by the harness: hostile Sync/EagerSync/Join/FastForward requests through Node.processRPC, hostile sync and fast-forward responses through core, each followed by a valid exchange and a comparison of delivered blocks.",
         "level_note": "Trusted: Lean kernel; decode model tied by correspondence; cryptographic validity and curve membership are input bits from the real code.",
         "trusted_base": ["decode model Babble.Decode tied to common.DecodeFromString / keys.DecodeSignature / keys.ToPublicKey / keys.Verify / InternalTransaction.Verify / processSyncRequest by outcome-class correspondence",
                          "encoding/json, net/rpc framing, goroutine scheduling and locking are exercised by the harness, not modelled"],
@@ -187,7 +187,7 @@ PROPS = {
         "level_text": "Proof (Lean 4): median_between / block_timestamp_bounded hold for every list of int64 timestamps and every strict minority of liars, "
                       "for the executable model median64 of common.Median (wrap-around and truncating division included); the model is tied to the code by "
                       "running common.Median and the model on the same random/extreme lists, and the block timestamp is tied to the median of the famous "
-                      "witnesses by hashgraph runs with lying clocks.",
+                      "witnesses by hashgraph runs with lying clocks, half of them long busy runs in which an honest clock runs fast and is corrected (later medians below earlier block timestamps).",
         "level_note": "Trusted: Lean kernel; correspondence harness; honest range assumed within +-2^62 (no int64 overflow of a sum of two honest timestamps).",
         "trusted_base": ["sort.Slice sorts (Go stdlib)", "model of int64 addition: wrap modulo 2^64; model of Go '/' : Int.tdiv"],
         "assumptions": ["honest timestamps lie in [-2^62, 2^62) so that the sum of two honest values does not overflow int64 (Unix nanoseconds do)"],
@@ -212,7 +212,7 @@ def _amend(pid, old, new):
     PROPS[pid]["level_text"] = PROPS[pid]["level_text"].replace(old, new, 1)
 
 _amend("C04", "so inside a frame ancestors come first. PARTIAL: monotonicity of round received along ancestry (across frames) and at-most-once commitment are decided by the oracle on the real code.",
-       "so inside a frame ancestors come first; for every insertion history of events with distinct ids into a node started from genesis no delivered block lists an event twice and no two delivered blocks share an event (every_event_committed_at_most_once: the received lists of the rounds stay duplicate-free and pairwise disjoint through every pass). On the declarative model Babble.Dag (static set, compared with the Go code on every view): an ancestor has a strictly smaller Lamport timestamp and is received in the same or an earlier round.")
+       "so inside a frame ancestors come first; for every insertion history of events with distinct ids into a node started from genesis no delivered block lists an event twice and no two delivered blocks share an event (every_event_committed_at_most_once: the received lists of the rounds stay duplicate-free and pairwise disjoint through every pass). On the operational model, for every insertion history of fresh events into a node started from genesis: every stored event has a Lamport timestamp, the parents it names are stored and their timestamps are strictly smaller, hence a proper ancestor always has a strictly smaller timestamp (lamport_increases_along_parents, lamport_respects_ancestry_operational). On the declarative model Babble.Dag (static set, compared with the Go code on every view): an ancestor has a strictly smaller Lamport timestamp and is received in the same or an earlier round.")
 _amend("C14", "signed only by strangers is refused however consistent internally (forged_set_refused);",
        "signed only by strangers is refused however consistent internally (forged_set_refused), in every state a node can reach from its configuration through join responses with any claimed peer list, consensus receipts, fast-forward responses and other messages (strangers_never_adopted, model Babble.Trust: the three sets only ever hold keys that were configured, put there by consensus, or members of the frame of an accepted response; tied to the code by the writer sets of core.peers / genesisPeers / validators and by join-then-fast-forward histories run on both sides);")
 _amend("C19", "Proof (Lean 4): sm_least, trusted_needs_more_than_third, two_supermajorities_intersect,",
@@ -220,7 +220,7 @@ _amend("C19", "Proof (Lean 4): sm_least, trusted_needs_more_than_third, two_supe
 _amend("C19", "the float ceil and the real PeerSet are tied to the generated definitions exhaustively for n=0..100000.",
        "the float ceil and the real PeerSet are tied to the generated definitions exhaustively for n=0..100000; the decisions that use the thresholds are exercised by hashgraphs built against the fame election (split votes, coin rounds, counts of exactly the supermajority, a decider delivered late) on several real nodes, which must decide the same fame and deliver the same blocks.")
 _amend("C03", "and fame does not depend on the decider.",
-       "and fame does not depend on the decider. On the operational model (any validator-set behaviour): whatever round, witness flag, Lamport timestamp, round received or fame an event has at some moment of an insertion history, it has after every continuation (assigned_values_are_final, fame_decisions_are_final).")
+       "and fame does not depend on the decider. On the operational model (any validator-set behaviour): whatever round, witness flag, Lamport timestamp, round received or fame an event has at some moment of an insertion history, it has after every continuation (assigned_values_are_final, fame_decisions_are_final); every stored event has a round, and it is at least the round of each parent (rounds_never_decrease_along_parents).")
 _amend("C06", "ProcessDecidedRounds consumes a decided round at the head of the queue.",
        "ProcessDecidedRounds consumes a decided round at the head of the queue; the PendingLoadedEvents counter behind busy() goes up by one per loaded insertion, is left alone by DivideRounds, DecideFame and DecideRoundReceived and comes down only by the loaded events of a processed frame (busy_counter_follows_the_events, operational model; the Go counter is compared with it after every insertion).")
 _amend("C05", "every committed transaction comes from an event of the frame (C04).",
